@@ -1,8 +1,9 @@
 (* C17 (translator route) - CodecRegistry.add_codec / add_file_codec / get_codec regenerated from /repo's source
    (Extracted/GenCodec.v) equal the model of L5_Stores/Codec.v, so C17's theorems are about the regenerated code. *)
-From Coq Require Import List ZArith.
+From Coq Require Import List ZArith String.
 From DDS Require Import Base.Bytes Base.PyRt L5_Stores.Codec L5_Stores.CodecProofs Extracted.GenCodec L5_Stores.GenCodecProofs.
 Import ListNotations.
+Local Open Scope string_scope.
 
 Theorem GEN_add_codec : forall g ref types,
   register g (RCodec ref types) =
@@ -37,3 +38,30 @@ Theorem GEN_read_with_writer_codec : forall regs g r c ot, r <> [] ->
   gen_get_codec ot (Some r) (handled g') (protocols g') = Some c.
 Proof. exact gen_read_with_writer_codec. Qed.
 Print Assumptions GEN_read_with_writer_codec.
+
+Theorem GEN_registrations : forall regs g, fold_left gen_register regs g = fold_left register regs g.
+Proof. exact gen_registrations_are_model. Qed.
+Print Assumptions GEN_registrations.
+
+Theorem GEN_default_registry : fold_left gen_register default_regs empty_registry = default_registry.
+Proof. exact gen_default_registry. Qed.
+Print Assumptions GEN_default_registry.
+
+Theorem GEN_read_with_writer_codec_history : forall before after r c ot, r <> [] ->
+  let g := fold_left gen_register before default_registry in
+  gen_get_codec ot (Some r) (handled g) (protocols g) = Some c ->
+  forallb (fun x => negb (rebinding r x)) after = true ->
+  let g' := fold_left gen_register after g in
+  gen_get_codec ot (Some r) (handled g') (protocols g') = Some c.
+Proof. exact gen_read_with_writer_codec_history. Qed.
+Print Assumptions GEN_read_with_writer_codec_history.
+
+(* non-vacuity: a str result is written with local.string from the default registry; a user file codec for str and a user codec for
+   another reference are registered afterwards; the reference still reads with the codec object that wrote it *)
+Example GEN_read_with_writer_codec_example :
+  let after := [RFile (bs "user.text") [bs "str"]; RCodec (bs "user.bin") [bs "bytes"]] in
+  let g' := fold_left gen_register after default_registry in
+  gen_get_codec None (Some (bs "local.string")) (handled default_registry) (protocols default_registry) = Some (bs "local.string", 0)
+  /\ gen_get_codec None (Some (bs "local.string")) (handled g') (protocols g') = Some (bs "local.string", 0)
+  /\ gen_get_codec (Some (bs "bytes")) None (handled g') (protocols g') = Some (bs "user.bin", 5).
+Proof. vm_compute. repeat split; reflexivity. Qed.
